@@ -21,7 +21,7 @@ MECHANISMS = ["jaxley.integrate:integrate", "jaxley.integrate:add_stimuli", "jax
               "jaxley.modules.base:Module.data_stimulate", "jaxley.modules.base:Module.data_set", "jaxley.modules.base:Module.data_clamp"]
 MECHANISMS_REQUIRED = ["jaxley.integrate:integrate", "jaxley.utils.jax_utils:nested_checkpoint_scan", "jaxley.modules.base:Module.data_stimulate"]
 REQUIRED = {"quick": {"modes": 120, "purity": 120, "repeat": 30},
-            "thorough": {"modes": 1197, "purity": 1155, "repeat": 320}}
+            "thorough": {"modes": 1188, "purity": 1155, "repeat": 320}}
 WALL_BUDGET = {"quick": 1500, "thorough": 4 * 3600}
 TOL = 1e-8
 
